@@ -131,6 +131,7 @@ type frAttr struct {
 	Segs []int  `json:"segs"`
 	Fam  string `json:"fam"`
 	Nl   []frNl `json:"nl"`
+	X    int    `json:"x"` // 1: Extended Length bit set although the value has at most 255 octets
 }
 
 type frCap struct {
@@ -258,7 +259,22 @@ func frBuildNlris(f Family, l []frNl, o frOpts) ([]PathNLRI, error) {
 
 const frUnknownAttrType = 200
 
+// frBuildAttr builds the attribute with the library's constructor and, for x = 1, sets the Extended
+// Length bit in its Flags (what a caller may do, and what a parsed attribute carries).
 func frBuildAttr(a frAttr, o frOpts) (PathAttributeInterface, error) {
+	p, err := frBuildAttr0(a, o)
+	if err != nil || a.X == 0 {
+		return p, err
+	}
+	f := reflect.ValueOf(p).Elem().FieldByName("PathAttribute").FieldByName("Flags")
+	if !f.IsValid() || !f.CanSet() {
+		return nil, fmt.Errorf("cannot set flags of %T", p)
+	}
+	f.SetUint(f.Uint() | uint64(BGP_ATTR_FLAG_EXTENDED_LENGTH))
+	return p, nil
+}
+
+func frBuildAttr0(a frAttr, o frOpts) (PathAttributeInterface, error) {
 	switch a.T {
 	case "origin":
 		return NewPathAttributeOrigin(0), nil
@@ -588,6 +604,11 @@ func frProjAttr(p PathAttributeInterface) frAttr {
 		}
 	case *PathAttributeMpUnreachNLRI:
 		a.T, a.Fam, a.Nl = "mpunreach", NewFamily(v.AFI, v.SAFI).String(), frProjNlris(v.Value)
+	}
+	// extended form with a short value: read from the object's own header fields
+	h := reflect.Indirect(reflect.ValueOf(p)).FieldByName("PathAttribute")
+	if h.IsValid() && p.GetFlags()&BGP_ATTR_FLAG_EXTENDED_LENGTH != 0 && h.FieldByName("Length").Uint() <= 255 {
+		a.X = 1
 	}
 	return a
 }
